@@ -41,7 +41,7 @@ PROPS = {
     "C08": {
         "lean_modules": ["WP.Props.C08"],
         "lean_support": ["WP.Props.C02.Components", "WP.Props.C02.Amounts", "WP.Lemmas.Rounding"],
-        "families": [("ltd", 40000, 2000000), ("est", 40000, 2000000), ("hist", 3000, 100000)],
+        "families": [("ltd", 40000, 2000000), ("est", 40000, 2000000), ("hist", 10000, 300000)],
         "history": True,
         "rule": "hist ops xliqt / xrepo: increase_liquidity_by_token_amounts_v2 (price window, liquidity estimated from fee-excluded token maxima, then the increase with the maxima as limits) and reposition_liquidity_v2 (withdraw all, re-range keeping owed amounts, deposit, net transfers with transfer fees, limits exact / one unit too tight) through the REAL entrypoint, compared with the step-by-step manager-level reference (position, pool, all four tick arrays byte for byte, balances) and with the Lean model; ltd: calculate_liquidity_token_deltas (Anchor and Pinocchio on the same serialized position) over usable ranges of all spacings, "
                 "prices on a bound / shifted-tick state / interior / anywhere, liquidity log-uniform up to i128::MAX, both signs; est: "
@@ -180,7 +180,7 @@ PROPS = {
     "C12": {
         "lean_modules": ["WP.Props.C12"],
         "lean_support": ["WP.Props.C13"],
-        "families": [("pmod", 40000, 2000000), ("poff", 40000, 3000000), ("hist", 6000, 150000), ("dyn", 10000, 500000), ("reset", 20000, 500000)],
+        "families": [("pmod", 40000, 2000000), ("poff", 40000, 3000000), ("hist", 10000, 300000), ("dyn", 10000, 500000), ("reset", 20000, 500000)],
         "history": True,
         "rule": "hist ops xliqt / xrepo: increase_liquidity_by_token_amounts_v2 (price window, liquidity estimated from fee-excluded token maxima, then the increase with the maxima as limits) and reposition_liquidity_v2 (withdraw all, re-range keeping owed amounts, deposit, net transfers with transfer fees, limits exact / one unit too tight) through the REAL entrypoint, compared with the step-by-step manager-level reference (position, pool, all four tick arrays byte for byte, balances) and with the Lean model; hist op xliq: the Pinocchio-routed increase / decrease_liquidity (v1, v2) instructions executed through the program's REAL entrypoint with the real token programs, compared with the manager-level result of both implementations, the model and exact fee arithmetic; pmod: one modify-liquidity on an ARBITRARY pool / position / bound-tick state (boundary-biased u128/i128 values, wrapped accumulators, all reward-initialisation prefixes, "
                 "fixed and dynamic arrays, bounds in one or two arrays, increases / decreases / full removal, timestamps before / at / after the last update) run by the Anchor managers and by the "
